@@ -309,15 +309,23 @@ func genC08(r *gen.Rand) (Input, string) {
 	// timeouts, pauses of more than twice the timeout; a call is collected with its own result however
 	// long it has been waiting to be collected (nothing but Cancel ends the hand-over)
 	if len(in.Ops) >= 2 && r.Chance(1, 25) {
-		for i := range in.Hooks {
-			if in.Hooks[i].Kind == "call" {
-				in.Hooks[i].Timeout = "20ms"
+		addPauses(&in)
+		kind = "late-collection"
+	}
+	// hook tasks of the history time out and end afterwards in the first operation, and end well within
+	// their time-out, after a while, whenever they are triggered again
+	if tasks := taskIdsOf(in.Hooks); len(tasks) > 0 && len(in.Ops) >= 2 && r.Chance(1, 12) {
+		for i := range in.Ops {
+			out := "okdelay"
+			if i == 0 {
+				out = "late"
+			}
+			in.Ops[i].TaskOut = map[string]string{}
+			for _, t := range tasks {
+				in.Ops[i].TaskOut[strconv.Itoa(t)] = out
 			}
 		}
-		for i := 1; i < len(in.Ops); i++ {
-			in.Ops[i].PauseMs = 45
-		}
-		kind = "late-collection"
+		kind = "retriggered-hook-task"
 	}
 	if r.Chance(3, 4) {
 		in.Ops = append(in.Ops, Op{Ev: "LEAVE_CANCEL"})
@@ -392,6 +400,10 @@ func genC09(r *gen.Rand) (Input, string) {
 	}
 	if r.Chance(1, 2) {
 		in.Ops = append(in.Ops, Op{Ev: "LEAVE_CANCEL"})
+	}
+	if len(in.Ops) >= 2 && r.Chance(1, 25) {
+		addPauses(&in)
+		kind = "late-collection"
 	}
 	setTaskTimeouts(in.Hooks, in.Ops)
 	return in, kind
@@ -599,6 +611,38 @@ func simCorpusC09() ([]Input, []string) {
 	return ins, kinds
 }
 
+// a failing critical call awaited in a LATER transition, collected long after it returned (more than
+// twice its declared timeout): it is collected with its own result (seeded regressions C08-6, C09-7)
+func lateCollectionCases() []Input {
+	var out []Input
+	for _, aw := range []string{"before_RESET", "leave_CONFIGURED+1", "enter_DEPLOYED-1", "after_RESET"} {
+		out = append(out, Input{Level: "bare", Init: "DEPLOYED", Hooks: []Hook{
+			{Id: 1, Kind: "call", Trig: "enter_CONFIGURED", Await: aw, Crit: true, Timeout: "20ms"},
+			{Id: 2, Kind: "call", Trig: "after_CONFIGURE+1", Await: aw, Crit: false, Timeout: "20ms"},
+			{Id: 3, Kind: "call", Trig: "before_CONFIGURE", Await: "after_NOTHING", Crit: true, Timeout: "20ms"}},
+			Ops: []Op{{Ev: "CONFIGURE", Fail: []int{1, 2, 3}}, {Ev: "RESET", PauseMs: 60}, {Ev: "CONFIGURE", Fail: []int{2}},
+				{Ev: "RESET", PauseMs: 60}, {Ev: "LEAVE_CANCEL"}}})
+	}
+	// before_X awaited at after_X of the same transition, later than the declared timeout after the start
+	out = append(out, Input{Level: "bare", Init: "DEPLOYED", Hooks: []Hook{
+		{Id: 1, Kind: "call", Trig: "before_CONFIGURE-1", Await: "after_CONFIGURE+1", Crit: true, Timeout: "2ms"},
+		{Id: 2, Kind: "call", Trig: "leave_DEPLOYED", Await: "leave_DEPLOYED", Crit: false}},
+		Ops: []Op{{Ev: "CONFIGURE", Fail: []int{1}, Slower: []int{2}}, {Ev: "RESET"}, {Ev: "CONFIGURE", Fail: []int{1}, Slower: []int{2}}}})
+	return out
+}
+
+// time passes between the start of a call and an await point in a later operation
+func addPauses(in *Input) {
+	for i := range in.Hooks {
+		if in.Hooks[i].Kind == "call" {
+			in.Hooks[i].Timeout = "20ms"
+		}
+	}
+	for i := 1; i < len(in.Ops); i++ {
+		in.Ops[i].PauseMs = 45
+	}
+}
+
 func simCorpus() ([]Input, []string) {
 	var ins []Input
 	var kinds []string
@@ -740,15 +784,20 @@ func corpus(prop string) ([]Input, []string) {
 				Ops: []Op{{Ev: "CONFIGURE", Slow: []int{1, 3}, Slower: []int{2}}, {Ev: "RESET"},
 					{Ev: "CONFIGURE", Slower: []int{1, 3}, Slow: []int{2}}, {Ev: "LEAVE_CANCEL"}}})
 		}
-		// a failing critical call awaited in a LATER transition, collected long after it returned (more
-		// than twice its declared timeout): it is collected with its own result (seeded regression C08-6)
-		for _, aw := range []string{"before_RESET", "leave_CONFIGURED+1", "enter_DEPLOYED-1", "after_RESET"} {
-			add("late-collection", Input{Level: "bare", Init: "DEPLOYED", Hooks: []Hook{
-				{Id: 1, Kind: "call", Trig: "enter_CONFIGURED", Await: aw, Crit: true, Timeout: "20ms"},
-				{Id: 2, Kind: "call", Trig: "after_CONFIGURE+1", Await: aw, Crit: false, Timeout: "20ms"},
-				{Id: 3, Kind: "call", Trig: "before_CONFIGURE", Await: "after_NOTHING", Crit: true, Timeout: "20ms"}},
-				Ops: []Op{{Ev: "CONFIGURE", Fail: []int{1, 2, 3}}, {Ev: "RESET", PauseMs: 60}, {Ev: "CONFIGURE", Fail: []int{2}},
-					{Ev: "RESET", PauseMs: 60}, {Ev: "LEAVE_CANCEL"}}})
+		for _, in := range lateCollectionCases() {
+			add("late-collection", in)
+		}
+		// a hook task that timed out and ended afterwards with nobody listening, triggered again at the
+		// same moment in a later transition: nothing of a later weight / moment / the task transition
+		// starts before THIS run of the hook task has ended (seeded regression C08-7: stale event queued)
+		for _, m := range []string{"before_CONFIGURE", "leave_DEPLOYED", "enter_CONFIGURED", "after_CONFIGURE"} {
+			add("retriggered-hook-task", Input{Level: "bare", Init: "DEPLOYED", Hooks: []Hook{
+				{Id: 1, Kind: "task", Trig: m, Crit: false, Timeout: taskTimeoutShort.String()},
+				{Id: 2, Kind: "call", Trig: m + "+5", Await: m + "+5", Crit: false},
+				{Id: 3, Kind: "call", Trig: "after_CONFIGURE+9", Await: "after_CONFIGURE+9", Crit: false}},
+				Ops: []Op{{Ev: "CONFIGURE", TaskOut: map[string]string{"1": "late"}}, {Ev: "RESET"},
+					{Ev: "CONFIGURE", TaskOut: map[string]string{"1": "okdelay"}}, {Ev: "RESET"},
+					{Ev: "CONFIGURE", TaskOut: map[string]string{"1": "okdelay"}}}})
 		}
 		add("hooks_test-order", Input{Level: "bare", Init: "DEPLOYED", Hooks: []Hook{
 			{Id: 3, Kind: "call", Trig: "before_CONFIGURE+50", Await: "before_CONFIGURE+50", Crit: true},
@@ -795,6 +844,9 @@ func corpus(prop string) ([]Input, []string) {
 				ops = append(ops, Op{Ev: "RESET"})
 			}
 			add("task-reports-"+m, Input{Level: "bare", Init: "DEPLOYED", Hooks: hs, Ops: ops})
+		}
+		for _, in := range lateCollectionCases() {
+			add("late-collection", in)
 		}
 		var many []Hook
 		var all []int
